@@ -505,12 +505,43 @@ def sibling_check(r, gd):
     gene, cov, cn_sol, prof = make_world(r, gd)
     prof.gap = 0.5
     from aldy.solutions import CNSolution
+    # a structure with the same number of copies but another layout, and a variant whose support lies between the two
+    # structures' thresholds of the evidence filter (fraction between 0.5/(cn+0.5) for the two copy numbers of its region)
+    others0 = [c for c, cf in gene.cn_configs.items() if c != "1" and c != gene.deletion_allele() and str(cf.kind).split(".")[-1] != "DELETION"]
+    base0 = list(cn_sol.solution.elements())
+    st3 = None
+    if others0 and "1" in base0 and r.random() < 0.7:
+        st3 = list(base0)
+        st3[st3.index("1")] = r.choice(others0)
+        cn3_ = CNSolution(gene, 0, st3)
+        cand_m = [m for m in gene.mutations if cn_sol.position_cn(m[0]) != cn3_.position_cn(m[0]) and min(cn_sol.position_cn(m[0]), cn3_.position_cn(m[0])) > 0
+                  and m[1][:3] != "ins"]
+        if cand_m:
+            mp, mo = r.choice(cand_m)
+            if len(cov._coverage.setdefault(mp, {}).get("_", [])) < 10:
+                cov._coverage[mp]["_"] = [(60, 60)] * 30
+            lo_cn, hi_cn = sorted([cn_sol.position_cn(mp), cn3_.position_cn(mp)])
+            f_lo, f_hi = 0.5 / (hi_cn + 0.5), 0.5 / (lo_cn + 0.5)
+            f = (f_lo + f_hi) / 2
+            others_n = sum(len(v) for o, v in cov._coverage[mp].items() if o != mo and o[:3] != "ins")
+            k = round(f * others_n / (1 - f))
+            if k >= 1 and f_lo + 0.01 < k / (others_n + k) < f_hi - 0.01:
+                cov._coverage[mp][mo] = [(60, 60)] * k
     cands = major.estimate_major(gene, cov, cn_sol, "cbc")
     # a second structure with one more / one fewer default copy
     alt_struct = list(cn_sol.solution.elements()) + ["1"]
     cn2 = CNSolution(gene, 0, alt_struct)
     cands2 = major.estimate_major(gene, cov, cn2, "cbc")
     pool = (cands[:2] + cands2[:2]) if r.random() < 0.7 else cands[:3]
+    # a structure with the same number of copies but another layout (one default copy replaced by a fused / partial
+    # configuration): same total copy number, different copy number per region
+    if st3:
+        try:
+            cands3 = major.estimate_major(gene, cov, CNSolution(gene, 0, st3), "cbc")
+        except Exception:
+            cands3 = []
+        if cands3:
+            pool = cands[:2] + cands3[:2]
     if len(pool) < 2:
         return why, 0
 
@@ -527,8 +558,21 @@ def sibling_check(r, gd):
     alone = {}
     for c in pool:
         alone.update(refine([c]))
+    first = None
+    togethers = []
     for perm in itertools.permutations(pool):
         together = refine(list(perm))
+        togethers.append((perm, together))
+        # the same candidates in another order: the pooled variant set is the same, so must be every refinement
+        if first is None:
+            first = (perm, together)
+        else:
+            for c in pool:
+                if together.get(id(c)) != first[1].get(id(c)):
+                    why.append(f"ORDER refinement of candidate {c._solution_nice()} [{c.cn_solution._solution_nice()}] is {first[1].get(id(c))} when the candidates are given as "
+                               f"{[x._solution_nice() + ' [' + x.cn_solution._solution_nice() + ']' for x in first[0]]} but {together.get(id(c))} for the order {[x._solution_nice() + ' [' + x.cn_solution._solution_nice() + ']' for x in perm]}")
+                    return why, len(pool)
+    for perm, together in togethers:
         for c in pool:
             if together.get(id(c)) != alone.get(id(c)):
                 why.append(f"refinement of candidate {c._solution_nice()} [{c.cn_solution._solution_nice()}] alone is {alone.get(id(c))} but {together.get(id(c))} when refined with {[x._solution_nice() + ' [' + x.cn_solution._solution_nice() + ']' for x in perm if x is not c]}")
@@ -570,7 +614,8 @@ def tie(ctx):
             why, n = [f"estimate_minor raised {type(e).__name__}: {e}"], 0
         stats["sibling_cases"] += n > 0
         if why:
-            violations.append({"why": why[0], "input": {"gene": gd, "index": i}, "signature": "c14:sibling_dependence"})
+            violations.append({"why": why[0], "input": {"gene": gd, "index": i},
+                               "signature": "c14:candidate_order_dependence" if why[0].startswith("ORDER") else "c14:sibling_dependence"})
     d = sim.scratch_dir()
     try:
         for k in range(3 if quick else 25):
